@@ -182,6 +182,45 @@ pub fn prop(case: &Case) -> CaseResult {
         must_reject(case, "an id issued for another address", "foreign-address-id-accepted", &|_, _, o| o, &mut out)?;
     }
 
+    // every address that differs from the issuing one in exactly one bit must be refused
+    {
+        let octets: Vec<u8> = match canonical_ip(case.ip.ip()) {
+            IpAddr::V4(a) => a.octets().to_vec(),
+            IpAddr::V6(a) => a.octets().to_vec(),
+        };
+        for bit in 0..octets.len() * 8 {
+            let mut o = octets.clone();
+            o[bit / 8] ^= 1 << (bit % 8);
+            let near: IpAddr = if o.len() == 4 {
+                IpAddr::V4(Ipv4Addr::new(o[0], o[1], o[2], o[3]))
+            } else {
+                let mut a = [0u8; 16];
+                a.copy_from_slice(&o);
+                IpAddr::V6(Ipv6Addr::from(a))
+            };
+            if canonical_ip(near) == canonical_ip(case.ip.ip()) {
+                continue;
+            }
+            out.checks += 1;
+            if v.connection_id_valid(addr(near, case.port), id) {
+                let again = |_: ()| {
+                    let mut w = validator(case.age);
+                    w.verif_set_seconds_since_start(case.t0);
+                    let i = w.create_connection_id(a);
+                    w.verif_set_seconds_since_start(case.t1);
+                    w.connection_id_valid(addr(near, case.port), i)
+                };
+                if again(()) && again(()) {
+                    return Err(Violation::new(
+                        "other-ip-accepted",
+                        format!("id issued for {:?} accepted from {} (one bit different) under three keys", case.ip, near),
+                    ));
+                }
+                out.label("mac-collision-retried");
+            }
+        }
+    }
+
     // alterations: only meaningful when the genuine id would be accepted (otherwise rejection
     // could be due to the time window alone), but they must be rejected in every case
     for bit in 0..64u32 {
